@@ -51,16 +51,17 @@ type LimTP struct {
 }
 
 type LimScenario struct {
-	Seed   uint64   `json:"seed"`
-	Cfg    WConfig  `json:"cfg"` // Cfg.Client = built-in fingerprint the spec is taken / derived from; side 0 values = user Config of the client
-	Net    WNet     `json:"net"`
-	Faults []WFault `json:"faults"`
-	TPs    []LimTP  `json:"tps,omitempty"` // generated limit parameters replacing those of the built-in list (nil = built-in list)
-	TPRot  int      `json:"tp_rot,omitempty"`
-	Push   string   `json:"push"`
-	Accept string   `json:"accept"`           // client application: none | all (accepts streams, never reads)
-	Reader string   `json:"reader,omitempty"` // "" = stalled reader; "slow" = the client reads everything and the server sends more than one window (single-stream pushers)
-	Faulty bool     `json:"faulty,omitempty"`
+	Seed        uint64   `json:"seed"`
+	Cfg         WConfig  `json:"cfg"` // Cfg.Client = built-in fingerprint the spec is taken / derived from; side 0 values = user Config of the client
+	Net         WNet     `json:"net"`
+	Faults      []WFault `json:"faults"`
+	TPs         []LimTP  `json:"tps,omitempty"` // generated limit parameters replacing those of the built-in list (nil = built-in list)
+	TPRot       int      `json:"tp_rot,omitempty"`
+	Push        string   `json:"push"`
+	Accept      string   `json:"accept"`           // client application: none | all (accepts streams, never reads)
+	Reader      string   `json:"reader,omitempty"` // "" = stalled reader; "slow" = the client reads everything and the server sends more than one window (single-stream pushers)
+	Faulty      bool     `json:"faulty,omitempty"`
+	ViaSuppress bool     `json:"via_suppress,omitempty"` // absent parameters stay in the spec's list and are named in SuppressTransportParameters
 }
 
 func (s *LimScenario) KSeed() uint64 { return s.Seed }
@@ -189,10 +190,24 @@ func limBuildSpec(sc *LimScenario) (*quic.QUICSpec, error) {
 	for _, t := range sc.TPs {
 		gen[t.ID] = true
 	}
+	// a parameter that is to be absent from the wire is either taken out of the spec's list, or (ViaSuppress) left in
+	// the list and named in SuppressTransportParameters: then the spec machinery removes it at dial time
+	suppress := map[uint64]bool{}
+	if sc.ViaSuppress {
+		for _, t := range sc.TPs {
+			if t.V < 0 {
+				suppress[t.ID] = true
+			}
+		}
+	}
 	var keep, add tls.TransportParameters
 	for _, tp := range q.TransportParameters {
 		if !gen[tp.ID()] {
 			keep = append(keep, tp)
+		} else if suppress[tp.ID()] {
+			keep = append(keep, tp)
+			spec.SuppressTransportParameters = append(spec.SuppressTransportParameters, tp.ID())
+			delete(suppress, tp.ID())
 		}
 	}
 	for _, t := range sc.TPs {
@@ -304,6 +319,7 @@ func genLimits(seed uint64, tier string) KScenario {
 			sc.TPs = []LimTP{}
 		}
 		sc.TPRot = r.N(16)
+		sc.ViaSuppress = r.P(0.5)
 	}
 	a := func(id uint64) int64 { return max(adv[id], 0) }
 	// user Config of the client: default / smaller / equal / larger than advertised, per dimension
